@@ -22,7 +22,7 @@ def blank(i, op):
             "eq_rev": False, "js2_ok": False, "js2": V("none"), "behaves_same": False,
             "rcond": {"t": "null"}, "proj_rb": {"t": "null"}, "rparts": [], "from_specs": False, "ppath_rb": NULLPATH,
             "probes": [], "rule": {"rparts": [], "dt": "none", "mt": "none", "rcond": {"t": "null"}, "cast": []},
-            "prule_rb": NULLRULE, "rules": [], "prules_rb": [], "exc": ""}
+            "prule_rb": NULLRULE, "rules": [], "prules_rb": [], "exc": "", "kw_same": True}
 
 
 def json_roundtrip(js):
@@ -32,7 +32,12 @@ def json_roundtrip(js):
         back = json.loads(text)
     except Exception:  # noqa
         return False, None
-    return doc_snap_noid(back) == doc_snap_noid(js), back
+    ok = doc_snap_noid(back) == doc_snap_noid(js)
+    # JSON objects are unordered: in transit the keys may come back in another order (here: sorted, for half the texts)
+    import zlib
+    if ok and zlib.crc32(text.encode()) % 2 == 0:
+        back = json.loads(json.dumps(js, sort_keys=True))
+    return ok, back
 
 
 def doc_snap_noid(x):
@@ -203,6 +208,12 @@ def rt_schema_event(i, rrs):
         e["js"] = enc_val(js)
     except Unencodable:
         e["js"] = V("unencodable")
+    # the keyword form of the JSON-like protocol (`shared_data=`) hands the shared data back next to the same JSON
+    sd = {"k": 1}
+    outk, resk = outcome_of(lambda: obj.to_json_like(shared_data=sd))
+    jsk = resk[0] if isinstance(resk, tuple) and len(resk) == 2 else resk
+    e["kw_same"] = outk == "ok" and doc_snap_noid(jsk) == doc_snap_noid(js) and \
+        (not isinstance(resk, tuple) or resk[1] is sd) and sd == {"k": 1}
     e["json_ok"], back = json_roundtrip(js)
     if not e["json_ok"]:
         return e
